@@ -672,6 +672,31 @@ theorem response_header_keeps_request_in_flight {d d' : DState} {ev : String} {r
 example : ((runSteps dinit [.load [0] { pA with badStatus := [200] } [], .newReq true, .streamBegin 0]).map fun d =>
     (isParked d.s 0, d.s.inflight 0, d.s.fails 0, d.streaming)) = some (true, 1, 1, [0]) := by decide
 
+/-- Cleanup of a handler whose stream_close_delay is not set (streaming.go cleanupConnections →
+    closeConnections) ends the upgraded connections of that handler: every such request leaves the
+    in-flight place through its own `finish` (nothing else can take it out), so the in-flight
+    count of its Host drops by exactly the number of connections closed — requests that are merely
+    parked in a backend stay counted.  Two upgraded connections and one plain request on Host 0: -/
+example : ((runSteps dinit [.load [0] { pA with closeStreams := true } [], .newReqWs, .wsBegin 0, .newReqWs, .wsBegin 1,
+    .newReq true, .load [0] pA []]).map fun d => (d.s.inflight 0, sendingCount d.s 0, d.wsStreaming, isParked d.s 2)) =
+    some (1, 1, [], true) := by decide
+/-- with stream_close_delay set they survive the reload and stay counted -/
+example : ((runSteps dinit [.load [0] pA [], .newReqWs, .wsBegin 0, .newReqWs, .wsBegin 1,
+    .newReq true, .load [0] pA []]).map fun d => (d.s.inflight 0, d.wsStreaming)) = some (3, [1, 0]) := by decide
+
+/-- every state `afterUnload` produces is reachable (the closing of streams is a sequence of
+    ordinary `finish` / `after` steps) -/
+theorem streams_closed_on_unload_reachable {d : DState} {c : CfgId} {s : State} (h : Reachable s) :
+    Reachable (afterUnload d c s).s := afterUnload_reachable h
+
+/-- a reload that DROPS an upstream while a request is still being sent to it, followed by one that
+    lists it again, is not "a reload that keeps the upstream": Cleanup releases the last reference,
+    the pool lets the Host go (`pool_entry_gone_when_nobody_holds`), and the address starts over
+    with a fresh Host — the old request is still counted, exactly, on the orphaned one (this is
+    what the code does; `host_preserved_across_reload` needs a holder throughout) -/
+example : ((runSteps dinit [.load [0] pA [], .newReq true, .load [1] pA [], .load [0] pA []]).map fun d =>
+    (d.s.inflight 0, poolObj d.s 0, d.s.inflight 2, sendingCount d.s 0)) = some (1, some 2, 0, 1) := by decide
+
 /-- …including the final quiescent state -/
 theorem quiesce_state_reachable {d : DState} (h : Reachable d.s) : Reachable (quiesce d) := quiesce_reachable h
 
